@@ -361,7 +361,7 @@ PIPELAB_NOTE = (SAN_NOTE + 'Catalogue pipes only (see evidence observed/pipe.*);
 
 PROPS['C04'] = dict(
     engine='pipelab',
-    key_prefixes=['c04:', 'abort:', 'crash:', 'timeout'],
+    key_prefixes=['c04:', 'abort:', 'crash:', 'timeout', 'hang:'],
     technique='runtime monitoring: event-order automaton over the merged log '
               'of recording probes, recording sinks and driver calls, for '
               'random protocol-respecting histories on every catalogue pipe',
@@ -388,7 +388,7 @@ PROPS['C04'] = dict(
 
 PROPS['C05'] = dict(
     engine='pipelab',
-    key_prefixes=['c05:', 'abort:', 'crash:', 'timeout'],
+    key_prefixes=['c05:', 'abort:', 'crash:', 'timeout', 'hang:'],
     technique='runtime monitoring: exactly-once / in-order / documented-'
               'transform ledger at recording sinks, sequence numbers carried '
               'in an attribute and in the payload, per-class reference '
@@ -413,7 +413,7 @@ PROPS['C05'] = dict(
 
 PROPS['C01'] = dict(
     engine='pipelab',
-    key_prefixes=['c01:', 'asan:', 'lsan:', 'abort:', 'crash:', 'timeout'],
+    key_prefixes=['c01:', 'asan:', 'lsan:', 'abort:', 'crash:', 'timeout', 'hang:'],
     technique='runtime monitoring: AddressSanitizer (pool depth 0) + pool '
               'hook poisoning parked objects and tracking live ones (pool '
               'depth > 0) + counting umem manager with guard zones + manager '
@@ -439,7 +439,7 @@ PROPS['C01'] = dict(
 
 PROPS['C20'] = dict(
     engine='pipelab',
-    key_prefixes=['c20:', 'abort:', 'crash:', 'timeout'],
+    key_prefixes=['c20:', 'abort:', 'crash:', 'timeout', 'hang:'],
     technique='runtime monitoring: per-option shadow value maintained from '
               'setter return codes, getters called with sentinel-preloaded '
               'variables, and a differential twin run (same seeded history '
@@ -466,7 +466,7 @@ PROPS['C20'] = dict(
 
 PROPS['C14'] = dict(
     engine='pipelab',
-    key_prefixes=['c14:', 'nonterm:', 'abort:', 'crash:', 'timeout'],
+    key_prefixes=['c14:', 'nonterm:', 'abort:', 'crash:', 'timeout', 'hang:'],
     technique='runtime monitoring: per-pipe reference regrouping model over '
               'the accepted byte stream, metamorphic cutting-independence '
               'check, non-termination decided in logical steps',
@@ -492,7 +492,7 @@ PROPS['C14'] = dict(
 
 PROPS['C12'] = dict(
     engine='pipelab',
-    key_prefixes=['c12:', 'asan:', 'abort:', 'crash:', 'timeout'],
+    key_prefixes=['c12:', 'asan:', 'abort:', 'crash:', 'timeout', 'hang:'],
     technique='runtime monitoring: registration model {request -> where it '
               'must currently be lodged} checked at every quiescent point '
               'against recording sinks / probes (proxy chains followed back '
@@ -523,7 +523,7 @@ PROPS['C12'] = dict(
 
 PROPS['C06'] = dict(
     engine='sched',
-    key_prefixes=['c06:', 'tsan:', 'asan:', 'abort:', 'crash:', 'timeout'],
+    key_prefixes=['c06:', 'tsan:', 'asan:', 'abort:', 'crash:', 'timeout', 'hang:'],
     technique='runtime monitoring: per-thread event logs checked after join '
               '(exactly-once / in-order / flow-definition-first / end-of-'
               'source-last / thread-affinity automaton) under (A) a seeded '
